@@ -15,14 +15,39 @@ SIGMA = ["\n", "    ", "'", '"', "'''", '"""', "#", "\\", "(", ")", "[", "]", "{
 SIGMA_SMALL = ["\n", "'", '"""', "\\", "(", ")", "def ", ":", "#", "x"]
 EDIT_TOKENS = ["'", '"', '"""', "'''", "(", ")", "\\", "#", ":", "["]
 
+# line alphabet: realistic source lines (with indentation variants, trailing comments, continuations, decorators, open brackets);
+# all sequences of <= L lines are enumerated - statement-level structure that token strings of length 4-5 cannot reach
+LINES = [
+    "",
+    "x = 1",
+    "    x = 1",
+    "# c",
+    "    # c \\",
+    "@deco",
+    "    @deco(1)",
+    "def f(x):",
+    "def f(x):  # noqa",
+    "    def f(x):  # noqa",
+    "    def g(y): # \\",
+    "class A(B):  # c",
+    "    return x",
+    '    """doc"""',
+    '    """',
+    "x = (1,",
+    "     2)  # c",
+    "if x:",
+    "    pass",
+    "y = 'a#b' \\",
+]
+
 REPO = os.environ.get("CDD_REPO", "/repo")
 
 
 def _bounds(tier):
     # (alphabet, max tokens, prefix length used for sharding)
     if tier == "quick":
-        return dict(full_n=4, small_n=5, n_mut_files=12, max_file_bytes=15400)
-    return dict(full_n=5, small_n=7, n_mut_files=60, max_file_bytes=10**9)
+        return dict(full_n=4, small_n=5, n_mut_files=12, max_file_bytes=15400, lines_n=4)
+    return dict(full_n=5, small_n=7, n_mut_files=60, max_file_bytes=10**9, lines_n=5)
 
 
 def _py_files():
@@ -44,6 +69,8 @@ def cases(tier, seed):
         yield dict(kind="block", alpha="full", prefix=list(pre), maxlen=b["full_n"])
     for pre in itertools.product(range(len(SIGMA_SMALL)), repeat=2):
         yield dict(kind="block", alpha="small", prefix=list(pre), maxlen=b["small_n"])
+    for pre in itertools.product(range(len(LINES)), repeat=2):
+        yield dict(kind="line_block", prefix=list(pre), maxlen=b["lines_n"])
     files = _py_files()
     for f in files:
         if os.path.getsize(f) <= b["max_file_bytes"]:
@@ -114,6 +141,15 @@ def _strings(case):
                 for t in itertools.product(alpha, repeat=n):
                     yield pre + "".join(t)
         return
+    if case["kind"] == "line_block":
+        pre = [LINES[i] for i in case["prefix"]]
+        for n in range(0, case["maxlen"] - len(pre) + 1):
+            for t in itertools.product(LINES, repeat=n):
+                body = "\n".join(pre + list(t))
+                yield body + "\n"
+                if n == case["maxlen"] - len(pre):
+                    yield body  # the same file without a final newline
+        return
     with open(os.path.join(REPO, case["path"]), "rt") as f:
         src = f.read()
     if case["kind"] == "file":
@@ -162,12 +198,12 @@ def describe(tier):
     b = _bounds(tier)
     return dict(
         rule="every string of <= {full_n} tokens over the {a}-token lexical alphabet, every string of <= {small_n} tokens "
-        "over the {s}-token quote/bracket/continuation sub-alphabet, every .py file under cdd/ of <= {max_file_bytes} bytes, and for the {n_mut_files} "
+        "over the {s}-token quote/bracket/continuation sub-alphabet, every sequence of <= {lines_n} lines over a {nl}-line alphabet of realistic source lines (with and without a final newline), every .py file under cdd/ of <= {max_file_bytes} bytes, and for the {n_mut_files} "
         "smallest non-stub files every single-line deletion and every append of one of {e} tokens to one line; a case is one string; "
         "non-trivial = all of them (each is scanned and parsed by the real code and compared with the input)".format(
-            a=len(SIGMA), s=len(SIGMA_SMALL), e=len(EDIT_TOKENS), **b
+            a=len(SIGMA), s=len(SIGMA_SMALL), e=len(EDIT_TOKENS), nl=len(LINES), **b
         ),
-        bounds=dict(alphabet=SIGMA, small_alphabet=SIGMA_SMALL, edit_tokens=EDIT_TOKENS, **b),
+        bounds=dict(alphabet=SIGMA, small_alphabet=SIGMA_SMALL, line_alphabet=LINES, edit_tokens=EDIT_TOKENS, **b),
         exhaustive=True,
         assumptions=[
             "small-scope hypothesis: scanner defects show on strings of few lexical tokens (the scanner's decisions depend only on "
